@@ -10,7 +10,10 @@ partial def loop (h : IO.FS.Stream) (out : IO.FS.Stream) (w : World) : IO Unit :
   | none =>
     match coreLine w ws with
     | some (w', o) => out.putStrLn o; loop h out w'
-    | none => out.putStrLn "bad-op"; loop h out w
+    | none =>
+      match replLine w ws with
+      | some (w', o) => out.putStrLn o; loop h out w'
+      | none => out.putStrLn "bad-op"; loop h out w
 
 def main : IO Unit := do
   let stdin ← IO.getStdin
